@@ -157,11 +157,26 @@ class Run:
         self.traces += len(groups)
         self.events += len(lines)
 
+        def denull(x):
+            if x is None:
+                return []
+            if isinstance(x, list):
+                return [denull(y) for y in x]
+            if isinstance(x, dict):
+                return {k: denull(v) for k, v in x.items() if k not in ("case", "msg")}
+            return x
+
+        def clean(ln):
+            # TLC's Json module aborts on null and has no use for the embedded replay case / messages
+            if "null" in ln or '"case":' in ln or '"msg":' in ln:
+                return json.dumps(denull(json.loads(ln)), separators=(",", ":"))
+            return ln
+
         def one(bi):
             evs = [ln for g in bat[bi] for ln in g]
             tf = os.path.join(self.scratch, "batch-%s-%d-%d.ndjson" % (module, len(os.listdir(self.scratch)), bi))
             with open(tf, "w") as f:
-                f.write("\n".join(evs) + "\n")
+                f.write("\n".join(clean(ln) for ln in evs) + "\n")
             r = self.tlc(module, workers=1, files=[(tf, "trace.ndjson")], timeout=timeout, name="%s-b%d" % (module, bi))
             return bi, evs, r
 
@@ -190,6 +205,13 @@ class Run:
                         j -= 1
                     x["_ctx"] = evs[j] if j != i else None
                     x["_event"] = evs[i]
+                    for src in (evs[i], evs[j]):
+                        if '"case":' in src:
+                            try:
+                                x["_case"] = json.loads(src).get("case")
+                                break
+                            except Exception:
+                                pass
                     mism.append(x)
         self.mismatches.extend(mism)
         return mism
